@@ -362,13 +362,16 @@ type faceVariant struct {
 	size       float64
 	xoff, yoff int32
 	italic     float64 // FauxItalic: the glyphs are sheared about the (raised) baseline of the face, as the PDF text matrix does
+	features   string  // Font.SetFeatures before the face is made (OpenType features the shaper applies)
 }
 
 var faceVariants = []faceVariant{
-	{"Face(12pt)", 12, 0, 0, 0},
-	{"Face(8pt) with XOffset=37 YOffset=350 font units", 8, 37, 350, 0},
-	{"Face(12pt) with FauxItalic=0.3", 12, 0, 0, 0.3},
-	{"Face(8pt) with XOffset=37 YOffset=350 font units and FauxItalic=0.3", 8, 37, 350, 0.3},
+	{"Face(12pt)", 12, 0, 0, 0, ""},
+	{"Face(8pt) with XOffset=37 YOffset=350 font units", 8, 37, 350, 0, ""},
+	{"Face(12pt) with FauxItalic=0.3", 12, 0, 0, 0.3, ""},
+	{"Face(8pt) with XOffset=37 YOffset=350 font units and FauxItalic=0.3", 8, 37, 350, 0.3, ""},
+	{"Face(12pt) of a font with SetFeatures(\"smcp\") (small capitals)", 12, 0, 0, 0, "smcp"},
+	{"Face(12pt) of a font with SetFeatures(\"c2sc,onum\")", 12, 0, 0, 0, "c2sc,onum"},
 }
 
 func relErr(a, b float64) float64 {
@@ -394,7 +397,11 @@ func familyToPath(name string, strs []string) fw.Family {
 			fi, vi, s := decode(i)
 			src := fontMenu[fi].load()
 			v := faceVariants[vi]
-			face := src.fresh().Face(v.size, canvas.Black)
+			cfont := src.fresh()
+			if v.features != "" {
+				cfont.SetFeatures(v.features)
+			}
+			face := cfont.Face(v.size, canvas.Black)
 			face.XOffset, face.YOffset = v.xoff, v.yoff
 			face.FauxItalic = v.italic
 			r.NontrivialIdx()
